@@ -204,3 +204,6 @@ where
         }
     }
 }
+
+#[cfg(all(test, feature = "verif-hooks"))]
+mod verif_replays;
